@@ -1192,6 +1192,7 @@ class PDFPageInterpreter:
                 [xobj],
                 ctm=mult_matrix(matrix, self.ctm),
             )
+            self.device.set_ctm(self.ctm)
             self.device.end_figure(xobjid)
         elif subtype is LITERAL_IMAGE and "Width" in xobj and "Height" in xobj:
             self.device.begin_figure(xobjid, (0, 0, 1, 1), MATRIX_IDENTITY)
